@@ -80,6 +80,8 @@ where
                     if !market.open {
                         break;
                     }
+                    // Release the market while sleeping so that workers are not stalled.
+                    drop(market);
                     sleep(Duration::from_secs(1));
                 })
                 .unwrap();
